@@ -57,6 +57,8 @@ func builtinScenarios(prop string) map[string]*Case {
 		"wuf-vs-purge-at-last-completion": {Cfg: Config{Kind: "plain", Queues: []string{"std"}, Conc: 1},
 			Clients: [][]Op{nil, {{Op: "barrier"}, {Op: "wuf"}}, {{Op: "barrier", V: 1}, {Op: "purge"}},
 				{{Op: "add", It: g(1)}, {Op: "add", It: p(2)}, {Op: "settle"}, {Op: "barrier"}, {Op: "settle"}, {Op: "barrier", V: 1}, {Op: "release", N: 1}}}},
+		"slow-ack-then-two-adds": {Cfg: Config{Kind: "plain", Queues: []string{"pers"}, Conc: 3}, Faults: []Fault{{Method: "AckGate", K: 1}},
+			Clients: [][]Op{nil, {{Op: "add", It: p(1)}, {Op: "settle"}, {Op: "add", It: p(2)}, {Op: "add", It: g(3)}, {Op: "settle"}}}},
 		"idle-expiry": {Cfg: Config{Kind: "plain", Queues: []string{"std"}, Conc: 2, ExpiryUs: 60, FinalStop: true},
 			Clients: [][]Op{nil, {{Op: "add", It: p(1)}, {Op: "add", It: p(2)}, {Op: "sleep", V: 200}, {Op: "add", It: p(3)}, {Op: "wait", N: 3}}}},
 		"samplers": {Cfg: Config{Kind: "plain", Queues: []string{"std"}, Conc: 1},
@@ -66,6 +68,7 @@ func builtinScenarios(prop string) map[string]*Case {
 		"C01": {"qclose-vs-add", "tune-down-with-idle-workers", "two-adds-then-wuf", "pausewait-vs-adds", "stop-restart-vs-adds", "cancel-vs-dispatch", "idle-expiry"},
 		"C02": {"tune-down-under-load", "stop-restart-vs-adds", "tune-down-with-idle-workers", "restart-vs-resume"},
 		"C03": {"two-adds-then-wuf", "pausewait-vs-adds", "idle-expiry", "tune-down-under-load", "wuf-vs-purge-at-last-completion"},
+		"C04": {"slow-ack-then-two-adds"},
 		"C05": {"cancel-vs-dispatch", "result-batch-of-3", "purge-vs-add", "batch-wait"},
 		"C06": {"two-adds-then-wuf", "pausewait-vs-adds", "stop-restart-vs-adds", "purge-vs-add", "wuf-vs-purge-at-last-completion"},
 		"C07": {"result-batch-of-3"},
